@@ -79,7 +79,7 @@ func runWS(ctx context.Context, addr string, s *Script, callID string) ClientT {
 	if s.MetaPlan {
 		hdr.Set("X-Vf-Plan-Bin", encodeBin([]byte(s.planJSON())))
 	}
-	addMD(hdr, s.MD)
+	addMD(hdr, s.MD, s.BinPad)
 	conn, err := wire.WSDial(ctx, "ws://"+addr+wsPathOf[s.Shape]+callID, hdr)
 	if err != nil {
 		t.TransportErr = "websocket handshake: " + err.Error()
